@@ -245,6 +245,9 @@ func runTwin(c fw.Case, tier string, p params, rec *fw.Recorder) {
 			if p.Spec.Queries && vr.Intn(3) == 0 {
 				readOnlyTraffic(w, br, rec)
 			}
+			if p.Spec.Queries {
+				discardedTraffic(w, vr, rec)
+			}
 			if p.Spec.Repeat && no%40 == 23 {
 				repeatedEvaluation(w, rec)
 			}
@@ -632,7 +635,7 @@ func init() {
 		},
 		Cases:       cases,
 		Run:         run,
-		MinCounters: []string{"blocks_compared", "twin_pairs_compared", "repeated_evaluations", "restarts", "queries", "env_names_swept"},
+		MinCounters: []string{"blocks_compared", "twin_pairs_compared", "repeated_evaluations", "restarts", "queries", "env_names_swept", "discarded_simulations_ok", "discarded_ok/job-create+execute", "discarded_ok/denom-change-admin", "discarded_ok/gov-proposal-submit"},
 		Workers:     5,
 		TimeoutS:    2400,
 	})
